@@ -210,6 +210,9 @@ def run(ck):
       for p in pr.preds:
         if p.name not in base or base[p.name]['kind'] != 'ok':
           continue
+        if res[p.name]['kind'] == 'too_big':
+          ck.features['capacity-skipped'] += 1
+          continue
         b0, b1 = M.norm_bag(base[p.name], p), M.norm_bag(res[p.name], p)
         rp = {'program': job[0], 'other_form': vtext, 'pred': p.name, 'equivalence': vname}
         if b1 is None and vname == 'positional=colN' and 'does not have an argument' in res[p.name].get('message', ''):
